@@ -11,6 +11,18 @@ CLAIMED = {
             "deterministic simulation: seeded ledger histories + focus transaction, processed by 2-4 simulated processes (hash seed, glob order) and judged by a three-class reference model",
             "Seeded search over ledger histories ending in a focus transaction built to hit the branches the statement names (rounding at/below/above half a unit, zero-valued commodities, same/opposite-sign pairs, omitted and assigned amounts, costs, lots, multi-commodity costs). Every world is book-kept by 2-4 simulated okane processes with different hash seeds and glob orders through the production loader on a simulated file system, and the verdict is compared with an independent reference model: MUST_ACCEPT / MAY_ACCEPT / MUST_REJECT, same verdict in every process, never a crash. Sampling, not proof.",
             "Trusted: rust_decimal exact add/mul; the reference model (sim/src/model.rs). Corners the statement leaves open are DONT_CARE (counted in evidence)."),
+    "C02": ("exploration",
+            "deterministic simulation: seeded ledgers with true/false balance assertions cut across glob-included files; 2-4 simulated processes with permuted glob enumeration and different hash seeds; verdict, blamed posting and reported balance compared with a reference model",
+            "Seeded ledgers carry balance assertions on about half of their postings (true by construction from the model's running balance, or falsified by one unit in the last place; bare '= 0'; multi-commodity accounts; through aliases) and are cut into up to 5 files, mostly through glob includes, so that the order in which assertions are evaluated is the order in which the simulated file system enumerates matches (sorted / reversed / shuffled per process). The verdict must equal the model's at the first false assertion in model load order, the diagnostic must point at that posting's line, and its computed balance must contain the model's actual balance.",
+            "Trusted: the reference model. Import-pipeline deliveries (duplicate / lost / reordered statements) are exercised by the C16/C18 checks, not here."),
+    "C03": ("exploration",
+            "deterministic simulation: seeded ledgers dominated by omitted amounts and '= X' assignments, processed by 2-4 simulated processes (hash seed, glob order); every posting amount and final balance compared with a reference model",
+            "Seeded ledgers in which most transactions end in an omitted amount and many contain assignments (bare '= 0' included) on accounts pre-loaded with 0, 1 or several commodities, with costs and lots, cut into included files. Every posting amount from Ledger::transactions() and every final balance is compared with the model in each simulated process; two unconstrained postings and '= 0' on a multi-commodity account must be rejected.",
+            "Weak simulation contribution (DESIGN.md section 0): mostly model refinement; the simulator adds hash-order independence of deduced multi-commodity amounts and split independence."),
+    "C04": ("exploration",
+            "deterministic simulation: seeded accepted ledgers and 5-8 date ranges asked of one long-lived Ledger in a drawn order and of one fresh simulated CLI process per query (restart equivalence), compared with the model, the register and each other",
+            "Seeded accepted ledgers (with and without declared precisions) and date ranges whose bounds sit on, next to, before and after transaction dates (adjacent triple, half-open, empty, inverted, whole-history cover). The ranges are asked of one long-lived Ledger in a drawn order (incremental raw balance vs re-fold path) and of one fresh CLI process per query with another schedule; balances must equal the sum of register postings, the model, and each other; adjacent ranges must add up; exactly-zero totals must not be listed.",
+            "Weak-to-medium simulation contribution: two code paths + restart equivalence. Totals exactly on a rounding midpoint are DONT_CARE."),
     "C06": ("fault_enumeration",
             "deterministic simulation with fault injection: per world every truncation point / read fault / bit flip / include cycle / hostile mutation, x 6 commands, in crash- and hang-detecting worker processes",
             "For each seeded world the fault space is enumerated one fault at a time: the file torn at every byte (thorough; ~30-60 biased cuts per file in quick), vanish/EIO/permission/canonicalize failure/bit flip on each file, include cycles, grammar-aware mutations, deep nesting, huge literals, zero divisors; each faulted world is fed to format, accounts, balance, register, flatten and eval. Oracle is totality only: Ok or Err with a message; panics are caught and signed by call site, aborts/stack overflows/hangs are detected by the parent from worker death or silence and re-executed in a fresh process.",
